@@ -1369,3 +1369,17 @@ package iavl
 //@   ensures [one-hold-per-export] err == nil ==> calls("nodeDB).incrVersionReaders") == 1 && e != nil
 //@   ensures [no-hold-without-an-export] err != nil ==> calls("nodeDB).incrVersionReaders") == 0 && e == nil
 //@   modifies *
+
+// ---------------------------------------------------------------- mutable_tree.go: AvailableVersions (C14) — without legacy versions and with the
+// version range discovered, one entry per version from first to latest (the loop runs version = first..latest and
+// appends once per round; that entry i is first+i needs element reasoning over append that is not discharged)
+//@ func (*MutableTree).AvailableVersions(tree) (vs)
+//@   props C14
+//@   nosafety
+//@   requires tree != nil && tree.ndb != nil && tree.ndb.db != nil
+//@   requires tree.ndb.legacyLatestVersion == 0 - 1 && tree.ndb.firstVersion > 0 && tree.ndb.latestVersion >= tree.ndb.firstVersion && tree.ndb.latestVersion < 9223372036854775807
+//@   let f0 = tree.ndb.firstVersion
+//@   let l0 = tree.ndb.latestVersion
+//@   loop 2 invariant f0 <= version && version <= l0 + 1 && latestVersion == l0 && len(res) == version - f0
+//@   ensures [as-many-as-versions-from-first-to-latest] len(vs) == l0 - f0 + 1
+//@   modifies *
